@@ -80,7 +80,8 @@ Record state := mkS {
 }.
 
 (* ---- helpers ------------------------------------------------------------------------ *)
-Definition dflt_entry := mkE 0 false None false true.
+(* out-of-range entry ids never occur (C14_Proofs5); the default reads as a failed, finished entry *)
+Definition dflt_entry := mkE 0 false None true true.
 Definition dflt_thread := mkT Idle [] [].
 Definition ent (s : state) (e : nat) : entry := nth e (s_ents s) dflt_entry.
 Definition thr (s : state) (t : nat) : thread := nth t (s_thr s) dflt_thread.
